@@ -144,6 +144,9 @@ def check(ctx):
     ctx.rule("R6", "layout of every module pinned at 236b7b1 is unchanged (item-by-item)")
     ctx.rule("R7", "table modules contain nothing but the literal shape")
     ctx.rule("R8", "module lookup from the FILES reply: GeckoAsyncSpa._connect and GeckoSpa._on_config_received import geckolib.driver.packs.<platform.lower()>, ...-cfg-<config_version>, ...-log-<log_version>, all three read from the same reply handler (symbolic string templates)")
+    ctx.rule("R9", "the layout served is the loaded pair's: on both structure classes, built by their own constructors, build_accessors(config, log) leaves exactly the items of that pair - also when another pair was loaded before (an in-place update keeps items of the earlier table at positions that belong to other items of the table now in force) (C12.R8's structure model borrowed)")
+    from .c12 import structure_tables as _st18
+    _st18(ctx.borrowed("R9", "C12"), repo, "R8")
     from ..modlookup import lookup_obligations
     n_lk = 0
     for q in ("GeckoAsyncSpa._connect", "GeckoSpa._on_config_received"):
